@@ -1,0 +1,177 @@
+//go:build verif
+
+// Contracts for package cache, read by /verif/gocv (comment-only; no code).
+// The generic bodies are verified once, for arbitrary K and V (type parameters are uninterpreted sorts).
+package cache
+
+// ---- what an eviction policy promises the cache, and what the cache promises the policy ----
+// pset(p): the items the policy tracks; pcount(p): how many; pcap(p): the capacity it was initialised with.
+//@ ghost field pset(policy) set[ref]
+//@ ghost field pcount(policy) int
+//@ ghost field pcap(policy) int
+
+//@ iface policy.Init
+//@   names capacity
+//@   modifies pset(this), pcount(this), pcap(this), all lru, all slru, all tinyLFU, all lfu
+//@   ensures pcap(this) == capacity && pcount(this) == 0
+//@   ensures forall it ref :: !(it in pset(this))
+
+//@ iface policy.Capacity
+//@   ensures result == pcap(this)
+
+//@ iface policy.Victim
+//@   modifies all cacheItem.parent, all lru, all slru, all slruItem, all tinyLFU, all lfu
+//@   ensures [C15:victim-iff-non-empty] (result == nil) == (pcount(this) == 0)
+//@   ensures [C15:victim-is-tracked] result != nil ==> result in pset(this)
+
+//@ iface policy.Admit
+//@   names item
+//@   requires [C15:admit-untracked-item] item != nil && !(item in pset(this))
+//@   modifies pset(this), pcount(this), all cacheItem.parent, all lru, all slru, all slruItem, all tinyLFU, all lfu
+//@   ensures pset(this) == upd(old(pset(this)), item, true)
+//@   ensures pcount(this) == old(pcount(this)) + 1
+
+//@ iface policy.Access
+//@   names item
+//@   requires [C15:access-tracked-item] item != nil && item in pset(this)
+//@   modifies all cacheItem.parent, all lru, all slru, all slruItem, all tinyLFU, all lfu
+
+//@ iface policy.Remove
+//@   names item
+//@   requires [C15:remove-tracked-item] item != nil && item in pset(this)
+//@   modifies pset(this), pcount(this), all cacheItem.parent, all lru, all slru, all slruItem, all tinyLFU, all lfu
+//@   ensures pset(this) == upd(old(pset(this)), item, false)
+//@   ensures pcount(this) == old(pcount(this)) - 1
+
+//@ iface policy.Close
+//@   modifies pset(this), pcount(this), pcap(this), all cacheItem.parent, all lru, all slru, all slruItem, all tinyLFU, all lfu
+
+// the user's clock may return anything
+//@ iface Clock.Now
+
+// ---- eviction notifications ----
+// cbn(f): how many times callback f has run; cbk(f), cbv(f): the key and value of its latest run
+//@ ghost field cbn(ref) int
+//@ ghost field cbk(ref) K
+//@ ghost field cbv(ref) V
+//@ funcspec evictFunc
+//@   names key, value
+//@   modifies cbn(this), cbk(this), cbv(this)
+//@   ensures cbn(this) == old(cbn(this)) + 1 && cbk(this) == key && cbv(this) == value
+//@ funcfield (cache).onEvictCallback evictFunc
+
+// every evict event on the channel carries its item
+//@ chaninv (cacheEvent) [C15:evict-event-carries-item] e.event == 0 ==> e.item != nil
+//@ chaninv (cacheEvent) [C15:only-evict-and-close-events] e.event == 0 || e.event == 1
+
+// ---- representation invariant of the cache, under its lock ----
+//@ spec fn cinv(c *cache) bool = c.byKey != nil && c.size == len(c.byKey) && c.size == pcount(c.policy) && 0 <= c.size && c.size <= pcap(c.policy) && (forall k K :: k in c.byKey ==> c.byKey[k] != nil && c.byKey[k].key == k && c.byKey[k] in pset(c.policy)) && (forall it *cacheItem :: it in pset(c.policy) ==> it != nil && valid(it) && it.key in c.byKey && c.byKey[it.key] == it)
+//@ spec fn chanok(c *cache) bool = c.isSync || (c.events != nil && !chclosed(c.events))
+//@ spec fn notes(c *cache) int = if c.isSync then cbn(c.onEvictCallback) else sent(c.events)
+
+//@ monitor (*cache).mux
+//@   facet C15
+//@   guards byKey, size, closing
+//@   havocs this.events, pset(this.policy), pcount(this.policy), all cacheItem.value, all cacheItem.expiration, all cacheItem.parent, sent(this.events), cbn(this.onEvictCallback), cbk(this.onEvictCallback), cbv(this.onEvictCallback)
+//@   invariant [wired] this.policy != nil && this.clock != nil && this.onEvictCallback != nil
+//@   invariant [entries-and-policy-in-bijection-size-bounded] !this.closing ==> cinv(this) && chanok(this) && pcap(this.policy) >= 1
+//@ immutable (cache).policy, (cache).clock, (cache).expiry, (cache).onEvictCallback, (cache).isSync, (cacheItem).key
+
+//@ func (*cache).Len
+//@   facet C15
+//@   safety C15
+//@   opt no-frame
+//@   requires c != nil && c.mux == 0
+//@   ensures [lock-released] c.mux == 0
+
+//@ func (*cache).Capacity
+//@   facet C15
+//@   safety C15
+//@   opt no-frame
+//@   requires c != nil && c.mux == 0
+//@   ensures [lock-released] c.mux == 0
+//@   ensures result == pcap(c.policy)
+
+//@ func (*cache).Delete
+//@   facet C15
+//@   safety C15
+//@   opt no-frame
+//@   opt old-at-acquire
+//@   requires c != nil && c.mux == 0
+//@   ensures [lock-released] c.mux == 0
+//@   ensures [delete-reports-presence] result == (!old(c.closing) && old(key in c.byKey))
+//@   ensures [deleted-key-is-gone] !old(c.closing) ==> !(key in c.byKey) && cinv(c)
+//@   ensures [delete-touches-no-other-key] forall k K :: k != key ==> (k in c.byKey) == old(k in c.byKey) && c.byKey[k] == old(c.byKey[k])
+//@   ensures [delete-notifies-nobody] notes(c) == old(notes(c))
+
+//@ func (*cache).Get
+//@   facet C15
+//@   safety C15
+//@   opt no-frame
+//@   opt old-at-acquire
+//@   requires c != nil && c.mux == 0
+//@   ensures [lock-released] c.mux == 0
+//@   ensures [hit-returns-the-value-last-set] ok ==> !old(c.closing) && old(key in c.byKey) && result == old(c.byKey[key].value) && key in c.byKey
+//@   ensures [miss-only-when-absent-or-expired] !ok && !old(c.closing) && old(key in c.byKey) ==> c.expiry > 0 && old(c.byKey[key].expiration) < ret(Now, 1, 0) && !(key in c.byKey)
+//@   ensures [without-expiry-a-present-key-hits] !old(c.closing) && old(key in c.byKey) && c.expiry <= 0 ==> ok
+//@   ensures [expired-entry-notified-once-with-its-value] !ok && !old(c.closing) && old(key in c.byKey) ==> notes(c) == old(notes(c)) + 1 && (c.isSync ==> cbk(c.onEvictCallback) == key && cbv(c.onEvictCallback) == old(c.byKey[key].value)) && (!c.isSync ==> lastsent(c.events).event == 0 && lastsent(c.events).item == old(c.byKey[key]))
+//@   ensures [get-notifies-nobody-else] ok || old(c.closing) || !old(key in c.byKey) ==> notes(c) == old(notes(c))
+//@   ensures [get-touches-no-other-key] forall k K :: k != key ==> (k in c.byKey) == old(k in c.byKey) && c.byKey[k] == old(c.byKey[k])
+//@   ensures [invariant-kept] !old(c.closing) ==> cinv(c)
+
+//@ func (*cache).Set
+//@   facet C15
+//@   safety C15
+//@   opt no-frame
+//@   opt old-at-acquire
+//@   requires c != nil && c.mux == 0
+//@   ensures [lock-released] c.mux == 0
+//@   ensures [set-then-get] !old(c.closing) ==> key in c.byKey && c.byKey[key].value == value
+//@   ensures [never-above-capacity] !old(c.closing) ==> cinv(c) && c.size <= pcap(c.policy)
+//@   ensures [set-keeps-other-entries-unless-evicted] forall k K :: k != key && k in c.byKey ==> old(k in c.byKey) && c.byKey[k] == old(c.byKey[k]) && c.byKey[k].value == old(c.byKey[k].value)
+//@   ensures [no-eviction-unless-full-and-new] old(c.closing) || old(key in c.byKey) || old(c.size) < pcap(c.policy) ==> notes(c) == old(notes(c)) && (forall k K :: old(k in c.byKey) ==> k in c.byKey)
+//@   ensures [one-eviction-when-full-and-new] !old(c.closing) && !old(key in c.byKey) && old(c.size) == pcap(c.policy) ==> notes(c) == old(notes(c)) + 1 && c.size == old(c.size)
+//@   ensures [evicted-entry-was-present-sync] !old(c.closing) && !old(key in c.byKey) && old(c.size) == pcap(c.policy) && c.isSync ==> (forall k K :: k == cbk(c.onEvictCallback) ==> old(k in c.byKey))
+//@   ensures [evicted-entry-no-longer-retrievable-sync] !old(c.closing) && !old(key in c.byKey) && old(c.size) == pcap(c.policy) && c.isSync ==> !(cbk(c.onEvictCallback) in c.byKey)
+//@   ensures [evicted-entry-queued-once-async] !old(c.closing) && !old(key in c.byKey) && old(c.size) == pcap(c.policy) && !c.isSync ==> lastsent(c.events).event == 0 && (forall it *cacheItem :: it == lastsent(c.events).item ==> old(it.key in c.byKey) && old(c.byKey[it.key]) == it && !(it.key in c.byKey))
+//@   ensures [evicted-entry-notified-with-its-value-sync] !old(c.closing) && !old(key in c.byKey) && old(c.size) == pcap(c.policy) && c.isSync ==> (forall k K :: k == cbk(c.onEvictCallback) ==> cbv(c.onEvictCallback) == old(c.byKey[k].value))
+
+//@ func (*cache).Close
+//@   facet C15
+//@   safety C15
+//@   opt no-frame
+//@   opt old-at-acquire
+//@   requires c != nil && c.mux == 0
+//@   loop 1 invariant [C15:close-drains] c.mux == 2 && c.closing && cinv(c) && chanok(c) && notes(c) == old(notes(c)) + old(c.size) - c.size && (forall k K :: k in c.byKey ==> old(k in c.byKey) && c.byKey[k] == old(c.byKey[k]))
+//@   ensures [lock-released] c.mux == 0
+//@   ensures [closed] c.closing
+//@   ensures [close-notifies-every-entry-once-sync] !old(c.closing) && c.isSync ==> cbn(c.onEvictCallback) == old(cbn(c.onEvictCallback)) + old(c.size)
+//@   ensures [close-queues-every-entry-once-then-stops-async] !old(c.closing) && !c.isSync ==> sent(old(c.events)) == old(sent(c.events)) + old(c.size) + 1 && lastsent(old(c.events)).event == 1 && chclosed(old(c.events))
+//@   ensures [second-close-does-nothing] old(c.closing) ==> notes(c) == old(notes(c))
+
+
+
+// the event goroutine: one callback per evict event received, with the key and value of the entry the event carries;
+// it stops at the close event (or when the channel is closed)
+//@ func (*cache).processEvents
+//@   facet C15
+//@   safety C15
+//@   opt no-frame
+//@   requires c != nil && c.events != nil && c.onEvictCallback != nil
+//@   loop 1 invariant [C15:each-evict-event-delivered-once] cbn(c.onEvictCallback) - old(cbn(c.onEvictCallback)) == recvd(c.events) - old(recvd(c.events)) && (recvd(c.events) > old(recvd(c.events)) ==> lastrecv(c.events).event == 0 && cbk(c.onEvictCallback) == lastrecv(c.events).item.key && cbv(c.onEvictCallback) == lastrecv(c.events).item.value)
+//@   ensures [one-callback-per-evict-event-received] cbn(c.onEvictCallback) - old(cbn(c.onEvictCallback)) == recvd(c.events) - old(recvd(c.events)) || (cbn(c.onEvictCallback) - old(cbn(c.onEvictCallback)) == recvd(c.events) - old(recvd(c.events)) - 1 && lastrecv(c.events).event == 1)
+
+//@ func (*cache).GetOrPanic
+//@   facet C15
+//@   opt no-frame
+//@   requires c != nil && c.mux == 0
+//@   ensures [lock-released] c.mux == 0
+
+// construction establishes the invariant
+//@ func (*builder).Build
+//@   facet C15
+//@   safety C15
+//@   opt no-frame
+//@   opt allow-go
+//@   requires b != nil && b.policy != nil && b.clock != nil && b.evictFunc != nil && b.capacity >= 1
+//@   ensures [built-cache-satisfies-its-invariant] result != nil && istype(result, *cache) && !dyn(result, *cache).closing && cinv(dyn(result, *cache)) && chanok(dyn(result, *cache)) && dyn(result, *cache).mux == 0 && pcap(dyn(result, *cache).policy) == b.capacity && dyn(result, *cache).size == 0
